@@ -23,7 +23,7 @@ def combine(J, w):
 
 
 # ------------------------------------------------------------------------------------------ MGDA
-def check_mgda(ctx: Ctx, J, dtype):
+def check_mgda(ctx: Ctx, J, dtype, force=None):
     rng = ctx.rng
     m = len(J)
     Jt = to_tensor(J, dtype)
@@ -34,6 +34,8 @@ def check_mgda(ctx: Ctx, J, dtype):
     # (1) short horizon: trajectory equality with the model (pins the loop body)
     iters = rng.choice([1, 2, 3])
     eps = rng.choice([0.0, 1e-3, 0.25, 0.6])
+    if force is not None:
+        iters, eps = force
     A = MGDA(epsilon=eps, max_iters=iters)
     st, x = run_agg(A, Jt)
     ctx.case(("mgda", sx(J), iters, eps, str(dtype)), nontrivial=True,
@@ -252,6 +254,14 @@ def main(ctx: Ctx):
         if all(v == 0 for r in J for v in r):
             continue
         check_mgda(ctx, J, dtype)
+        if i % 6 == 0:
+            # nearly balanced orthogonal rows: the first Frank-Wolfe steps are tiny (gamma ~ 1e-4); with epsilon = 0 the
+            # iteration must go on all the same, with epsilon = 1e-3 it must stop after the first update
+            mm = rng.choice([3, 4])
+            Jb = [[(Fr(1) + Fr(rng.randint(1, 9) * (r > 0), 8192)) if c == r else Fr(0) for c in range(mm)] for r in range(mm)]
+            rng.shuffle(Jb)
+            ctx.count("mgda_nearly_balanced")
+            check_mgda(ctx, Jb, torch.float64, force=(3, rng.choice([0.0, 0.0, 1e-3])))
         if i % 3 == 1:
             # the definitions are scale-free: small (and large) gradients must satisfy them just the same
             k = rng.choice([-40, -17, -12, 20])
